@@ -35,14 +35,37 @@ def corpus(sc, tier):
     return progs
 
 
+# a large program (the repository's tests + std, several hundred functions) is split into this many jobs per
+# comparison so that the functions are spread over the worker processes instead of running one after the other
+CHUNKS = 14
+
+
+def _selected(only, idx, name):
+    if only is None:
+        return True
+    if isinstance(only, tuple):
+        return idx % only[2] == only[1]
+    return only in name
+
+
+def _chunked(jobs):
+    out = []
+    for j in jobs:
+        if j[0] == "repo-tests" and j[-1] is None and not str(j[3]).startswith("whole"):
+            out += [j[:-1] + (("chunk", k, CHUNKS),) for k in range(CHUNKS)]
+        else:
+            out.append(j)
+    return out
+
+
 def _compare_lirwat(job):
     (prog, fileA, fileB, mode, bounds, only) = job
     from vlib import wat
     L = irsym.Prog(json.load(open(fileA)))
     M = wat.Module(open(fileB).read())
     out = []
-    for n in L.fns:
-        if only and only not in n:
+    for idx, n in enumerate(L.fns):
+        if not _selected(only, idx, n):
             continue
         t0 = time.time()
         try:
@@ -84,7 +107,7 @@ def _compare_one(job):
     if mains_only:
         names = [n for n in names if n in B.mains]
     if only:
-        names = [n for n in names if only in n]
+        names = [n for i, n in enumerate(names) if _selected(only, i, n)]
     if divtraps:
         # second pass, only for functions that divide: the reference side's division traps are outcomes
         names = [n for n in names if '"op": "DIV"' in json.dumps(A.fns[n]["body"]) or '"op": "MOD"' in json.dumps(A.fns[n]["body"])]
@@ -109,7 +132,8 @@ def _compare_one(job):
         r["divtraps"] = divtraps
         r["wall_s"] = round(time.time() - t0, 2)
         out.append(r)
-    return (prog, os.path.basename(fileA), os.path.basename(fileB), mode, out, sorted(set(A.fns) - set(B.fns)))
+    dropped = sorted(set(A.fns) - set(B.fns)) if not (isinstance(only, tuple) and only[1] != 0) else []
+    return (prog, os.path.basename(fileA), os.path.basename(fileB), mode, out, dropped)
 
 
 def run_mir_opt(res, tier, sc, drv, only_prog=None, only_fn=None):
@@ -167,8 +191,8 @@ def run_mir_opt(res, tier, sc, drv, only_prog=None, only_fn=None):
     f29 = [k for k in load_known("C02") if k.get("division_trap_functions")]
     f29_sites = []
     t0 = time.time()
-    with concurrent.futures.ProcessPoolExecutor(max_workers=min(14, max(1, len(jobs)))) as ex:
-        for (prog, fa, fb, mode, out, dropped) in ex.map(_compare_one, jobs):
+    with concurrent.futures.ProcessPoolExecutor(max_workers=min(14, max(1, len(_chunked(jobs)) if jobs and len(jobs[0]) == 6 else len(jobs)))) as ex:
+        for (prog, fa, fb, mode, out, dropped) in ex.map(_compare_one, _chunked(jobs)):
             if prog in known_progs:
                 diff = sorted(r["fn"].split("$")[-1] for r in out if r["status"] == "different")
                 if diff:
@@ -276,8 +300,8 @@ def run_pipeline(res, tier, sc, drv, only_prog=None):
     skipped_why = {}
     f5 = []
     t0 = time.time()
-    with concurrent.futures.ProcessPoolExecutor(max_workers=min(14, max(1, len(jobs)))) as ex:
-        for (prog, fa, fb_, mode, out, dropped) in ex.map(_compare_one, jobs):
+    with concurrent.futures.ProcessPoolExecutor(max_workers=min(14, max(1, len(_chunked(jobs)) if jobs and len(jobs[0]) == 6 else len(jobs)))) as ex:
+        for (prog, fa, fb_, mode, out, dropped) in ex.map(_compare_one, _chunked(jobs)):
             stage = "%s -> %s (%s)" % (fa.replace(".json", ""), fb_.replace(".json", ""), mode)
             ps = stats["per_stage"].setdefault(stage, {"functions": 0, "equal": 0, "bounded_paths": 0})
             for r in out:
@@ -607,7 +631,7 @@ def run_trap_freedom(res, tier, sc, drv):
     rows = []
     known_hits = set()
     from vlib.common import load_known
-    with concurrent.futures.ProcessPoolExecutor(max_workers=min(14, max(1, len(jobs)))) as ex:
+    with concurrent.futures.ProcessPoolExecutor(max_workers=min(14, max(1, len(_chunked(jobs)) if jobs and len(jobs[0]) == 6 else len(jobs)))) as ex:
         for r in ex.map(_trap_one, jobs):
             rows.append({k: v for k, v in r.items() if k != "illegal_casts"})
             if r["status"] != "ok":
@@ -693,7 +717,7 @@ def run_lirts(res, tier, sc, drv):
         jobs.append((name, os.path.join(od, "lir.json"), os.path.join(od, "all.ts"), fb))
         jobs.append((name, os.path.join(od, "lir_00000.json"), os.path.join(od, "all_00000.ts"), fb))
     stats = {"functions_compared": 0, "equal": 0, "different": 0, "skipped": 0, "pairs": 0, "skipped_reasons": {}}
-    with concurrent.futures.ProcessPoolExecutor(max_workers=min(14, max(1, len(jobs)))) as ex:
+    with concurrent.futures.ProcessPoolExecutor(max_workers=min(14, max(1, len(_chunked(jobs)) if jobs and len(jobs[0]) == 6 else len(jobs)))) as ex:
         for (prog, fa, fb_, out) in ex.map(_compare_lirts, jobs):
             for r in out:
                 stats["functions_compared"] += 1
@@ -731,8 +755,8 @@ def run_lirwat(res, tier, sc, drv):
         jobs.append((name, os.path.join(od, "lir.json"), os.path.join(od, "all.wat"), "lirwat", fb, None))
         jobs.append((name, os.path.join(od, "lir_00000.json"), os.path.join(od, "all_00000.wat"), "lirwat", fb, None))
     stats = {"functions_compared": 0, "equal": 0, "different": 0, "skipped": 0, "pairs": 0, "vec_i31_boxing_sites": 0}
-    with concurrent.futures.ProcessPoolExecutor(max_workers=min(14, max(1, len(jobs)))) as ex:
-        for (prog, fa, fb_, mode, out, _) in ex.map(_compare_one, jobs):
+    with concurrent.futures.ProcessPoolExecutor(max_workers=min(14, max(1, len(_chunked(jobs)) if jobs and len(jobs[0]) == 6 else len(jobs)))) as ex:
+        for (prog, fa, fb_, mode, out, _) in ex.map(_compare_one, _chunked(jobs)):
             for r in out:
                 stats["functions_compared"] += 1
                 stats[r["status"]] = stats.get(r["status"], 0) + 1
